@@ -472,14 +472,18 @@ fn sanitize_family(out: &mut Out) {
     // a few long / unusual inputs beyond the exhaustive domain (numbers wider than u64/u128, fullwidth digits, long zero runs)
     for extra in ["018446744073709551616", "build/018446744073709551616", "0123456789012345678901234567890123456789",
                   "00000000000000000000000", "0018446744073709551615", "a.000340282366920938463463374607431768211456.b",
-                  "０１２", "x/٠٠٧/y", "1..02", "a___b_c", "Ubuntu..20", "v1.2.3-RC.01+Build.007"] {
+                  "０１２", "x/٠٠٧/y", "1..02", "a___b_c", "Ubuntu..20", "v1.2.3-RC.01+Build.007",
+                  // characters whose Unicode lower case is (or contains) an ASCII letter: KELVIN SIGN, LATIN CAPITAL LETTER I WITH DOT ABOVE
+                  "rate-10\u{212A}-Final", "v-007\u{212A}", "\u{212A}", "\u{0130}x", "A\u{0130}", "00\u{212A}1",
+                  // a zero-led mixed segment at a cut position
+                  "v-00x1", "Release/24_007abc", "ab-000c-d"] {
         inputs.push(extra.to_string());
     }
     for sep in [".", "-", "_"] {
         let d = sep.chars().next().unwrap();
         for lowercase in [false, true] {
             for keep_zeros in [false, true] {
-                for max in [None, Some(1usize), Some(3), Some(6)] {
+                for max in [None, Some(1usize), Some(3), Some(4), Some(6), Some(13)] {
                     let san = Sanitizer::str(Some(sep), lowercase, keep_zeros, max);
                     for input in &inputs {
                         out.cases += 1;
@@ -1098,6 +1102,31 @@ fn schema_family(out: &mut Out) {
                     && !bv.iter().any(|v| primary(v) || secondary(v));
                 if ok && !rules {
                     out.cex("schema_validate", format!("ZervSchema::new accepted core={core:?} extra_core={extra:?} build={build:?} although it violates the placement rules"));
+                }
+            }
+        }
+    }
+    // the validating setters: whatever sequence of set_* / push_* succeeds, the schema still satisfies the rules (in particular it keeps a component)
+    let starts = [
+        (vec![], vec![], vec![C::Str("nightly".into())]),
+        (vec![C::Var(Var::Major)], vec![], vec![]),
+        (vec![], vec![C::Var(Var::Epoch)], vec![]),
+        (vec![C::Var(Var::Major), C::Var(Var::Minor)], vec![C::Var(Var::Post)], vec![C::UInt(1)]),
+    ];
+    let repl: Vec<Vec<C>> = vec![vec![], vec![C::Str("x".into())], vec![C::Var(Var::Minor), C::Var(Var::Major)], vec![C::Var(Var::Epoch)], vec![C::Var(Var::Patch)], vec![C::Var(Var::Timestamp("QQ".into()))]];
+    for (c0, e0, b0) in &starts {
+        for r in &repl {
+            for which in 0..3 {
+                out.cases += 1;
+                let Ok(mut s) = ZervSchema::new(c0.clone(), e0.clone(), b0.clone()) else { continue };
+                let res = match which { 0 => s.set_core(r.clone()), 1 => s.set_extra_core(r.clone()), _ => s.set_build(r.clone()) };
+                let still_valid = ZervSchema::new(s.core().clone(), s.extra_core().clone(), s.build().clone()).is_ok();
+                if res.is_ok() && !still_valid {
+                    out.cex("schema_validate", format!("set_{} ({r:?}) on core={c0:?} extra_core={e0:?} build={b0:?} succeeded and left a schema that violates the placement rules: core={:?} extra_core={:?} build={:?}",
+                        ["core", "extra_core", "build"][which], s.core(), s.extra_core(), s.build()));
+                }
+                if res.is_err() && (s.core() != c0 || s.extra_core() != e0 || s.build() != b0) {
+                    out.cex("schema_validate", format!("set_{} ({r:?}) failed but changed the schema", ["core", "extra_core", "build"][which]));
                 }
             }
         }
